@@ -117,7 +117,7 @@ def main(argv=None):
         "distinct_outcomes": agg["outcomes"],
         "cap_hit": agg["capped"],
         "known_findings_matched": n_known,
-        "bounds": mod.bounds(args.tier) if hasattr(mod, "bounds") else "",
+        "bounds": ((mod.bounds(args.tier) if hasattr(mod, "bounds") else "") + _bounds_ext(pid)),
     }
     if level == "model_checking":
         cov["states"] = agg["states"]
@@ -155,6 +155,16 @@ def main(argv=None):
         return 1
     print("%s: OK" % pid)
     return 0
+
+
+def _bounds_ext(pid):
+    """Axes added to the check after its bounds() text was written (kept in one place: mc/registry.py)."""
+    try:
+        from . import registry
+        t = registry.EXT_TEXT.get(pid, "")
+        return (" || further axes: " + t) if t else ""
+    except Exception:
+        return ""
 
 
 def do_replay(mod, pid, path):
